@@ -16,13 +16,19 @@ AGENT_MODS = "pams.agents."
 
 
 def _agent_funcs(ctx: Ctx):
+    """functions of the agents package that are analysed on their own: private helpers that
+    are inlined into their callers are seen there, with the callers' guards in force"""
+    from ..kit import is_helper
+
     for f in ctx.program.all_functions():
         if f.module.name.startswith(AGENT_MODS) and f.outer is None:
+            if is_helper(f) and ctx.cg.sites_calling(f.qualname):
+                continue
             yield f
 
 
 def _paths(ctx: Ctx, q: str) -> List[Path]:
-    return ctx.paths(q, auto_inline_trivial=False)
+    return ctx.paths(q, auto_inline_trivial=False)  # helpers are inlined; trivial accessors stay calls
 
 
 def _orders_in(p: Path) -> List[Tuple[Event, List[Tuple[Term, bool]], Optional[Event]]]:
@@ -42,23 +48,33 @@ def _orders_in(p: Path) -> List[Tuple[Event, List[Tuple[Term, bool]], Optional[E
     return out
 
 
-@rule("C20.R1", "every order a built-in agent constructs carries the agent's own id and a kind consistent with its price", "T11 on every construction site", floor=11)
+@rule("C20.R1", "every order a built-in agent constructs carries the agent's own id and a kind consistent with its price", "T11 on every construction site", floor=5)
 def r1(ctx: Ctx) -> None:
-    n = 0
+    seen = set()
+    classes = set()
     for f in _agent_funcs(ctx):
-        for node in ast.walk(f.node):
-            if isinstance(node, ast.Call) and isinstance(node.func, ast.Name) and node.func.id == "Order":
-                n += 1
-                kws = {k.arg: k.value for k in node.keywords}
-                aid = ast.unparse(kws["agent_id"]) if "agent_id" in kws else "<missing>"
-                kind = ast.unparse(kws["kind"]) if "kind" in kws else "<missing>"
-                price = kws.get("price")
-                has_price = price is not None and not (isinstance(price, ast.Constant) and price.value is None)
-                ok = aid == "self.agent_id" and ((kind == "LIMIT_ORDER" and has_price) or (kind == "MARKET_ORDER" and not has_price))
-                vol = kws.get("volume")
-                ctx.check(ok and vol is not None, f, node, "order is issued under the agent's own id; limit orders have a price, market orders none", "agent_id=self.agent_id; LIMIT_ORDER with price | MARKET_ORDER without",
-                          f"agent_id={aid}, kind={kind}, price={'set' if has_price else 'none'}")
-    ctx.require(n >= 11, "fewer Order constructions in pams/agents than confirmed by reading")
+        if f.cls is None:
+            continue
+        for p in _paths(ctx, f.qualname):
+            for e, conds, lp in _orders_in(p):
+                aid = strip_ver(kw(e, "agent_id", 0) or NONE)
+                kind = strip_ver(kw(e, "kind", 3) or NONE)
+                price = strip_ver(kw(e, "price", 5) or NONE)
+                vol = kw(e, "volume", 4)
+                k = (id(e.node), key(aid), key(kind), key(price))
+                if k in seen:
+                    continue
+                seen.add(k)
+                classes.add(f.cls.name)
+                kname = key(kind).rsplit(".", 1)[-1]
+                if kname not in ("LIMIT_ORDER", "MARKET_ORDER"):
+                    ctx.unrec(f, e.node, "order kind is one of the two module constants", "LIMIT_ORDER | MARKET_ORDER", short(kind))
+                    continue
+                has_price = price != NONE
+                ok = key(aid) == "self.agent_id" and ((kname == "LIMIT_ORDER" and has_price) or (kname == "MARKET_ORDER" and not has_price))
+                ctx.check(ok and vol is not None, f, e.node, "order is issued under the agent's own id; limit orders have a price, market orders none", "agent_id=self.agent_id; LIMIT_ORDER with price | MARKET_ORDER without",
+                          f"agent_id={short(aid)}, kind={kname}, price={'set' if has_price else 'none'}")
+    ctx.require(len(classes) >= 4, "fewer agent classes constructing orders than confirmed by reading")
 
 
 def _access_test(c: Term, pol: bool, mterm: Term) -> bool:
